@@ -225,6 +225,11 @@ def rule_tablesafe(ctx):
                 if r[0] == "g":
                     probs.append("writes %s in place (%s)" % (r[1], m.how))
                     node = m.node
+        for dec in getattr(f.node, "decorator_list", []):
+            txt = ast.unparse(dec)
+            if any(k in txt for k in ("lru_cache", "functools.cache", "memoize", "memoise")) or txt == "cache":
+                probs.append("memoising decorator @%s: the template it returns is shared between calls and encode() edits it in place" % txt)
+                node = dec
         n += 1
         yield ob("C10.TABLESAFE", f, "%s:tables" % q, not probs, "; ".join(probs) if probs else "no in-place write reaches a module-level table (QUALITIES, EXTENDED_QUALITY_REDUX, sentinels)", node=node)
 
@@ -606,3 +611,6 @@ RULES = [
     ("C10.DEGREEPARSE", 2, rule_degreeparse),
     ("C10.STRICTBASS", 2, rule_strictbass),
 ]
+
+from . import common as _common_purity
+RULES = RULES + _common_purity.purity_rules("C10")
